@@ -1430,6 +1430,50 @@ func init() {
 		}
 		return "ok"
 	})
+	registerEval("noiserace", func(a []string) string {
+		// noiserace <n> <noise>: with evaluation noise on (the default of the SARGON and TUROCHAMP binaries), a deep analysis is
+		// superseded at once by a shallow one, n times on fresh engines with one seed: the halted search may still be evaluating
+		// while its successor runs. The successor must answer the same every time (its noise is reproducible from the seed and
+		// does not depend on how far the halted search got), and - under the race detector - no generator is shared.
+		n, _ := strconv.Atoi(a[0])
+		noise, _ := strconv.Atoi(a[1])
+		ctx := context.Background()
+		first := ""
+		for i := 0; i < n; i++ {
+			e := engine.New(ctx, "n", "x", search.AlphaBeta{Eval: search.Leaf{Eval: eval.Material{}}}, engine.WithZobrist(7), engine.WithOptions(engine.Options{Noise: uint(noise)}))
+			if e.Move(ctx, "e2e4") != nil {
+				return "err-move"
+			}
+			outA, err := e.Analyze(ctx, searchctl.Options{DepthLimit: lang.Some(uint(6))})
+			if err != nil {
+				return "err-analyze"
+			}
+			go func() {
+				for range outA {
+				}
+			}()
+			time.Sleep(time.Duration(1+i%9) * time.Millisecond)
+			if e.Move(ctx, "e7e5") != nil { // halts the analysis (without waiting for it to unwind), then plays
+				return "err-move"
+			}
+			outB, err := e.Analyze(ctx, searchctl.Options{DepthLimit: lang.Some(uint(2))})
+			if err != nil {
+				return "err-analyze"
+			}
+			var pv search.PV
+			for p := range outB {
+				pv = p
+			}
+			e.Halt(ctx)
+			got := fmt.Sprintf("%d/%s/%s", pv.Depth, fmtScore(pv.Score), pvStr(pv.Moves))
+			if i == 0 {
+				first = got
+			} else if got != first {
+				return fmt.Sprintf("MISMATCH run %d answers %s, run 0 answered %s (same seed, same game, same noise)", i, strings.ReplaceAll(got, " ", "_"), strings.ReplaceAll(first, " ", "_"))
+			}
+		}
+		return "ok"
+	})
 	registerEval("supersede", func(a []string) string {
 		// supersede <kind> <n> <depth> <moveA> <moveB>: n times on a fresh engine (wired as the binaries wire it: ONE search
 		// object per engine): play moveA, start a deep analysis and supersede it at once (Halt, play moveB, analyse at <depth>) -
@@ -1536,6 +1580,17 @@ func init() {
 			ms := playoutMoves(r, fen.Initial, 3)
 			o.do(fmt.Sprintf("published noise %d %s", r.Int63n(1000), strings.Join(ms, " ")))
 			o.Count("noise")
+		}
+		// noise on and a search superseding one that is still unwinding: the successor's answer is reproducible
+		{
+			k := 12
+			if thorough {
+				k = 150
+			}
+			line := fmt.Sprintf("published noiserace %d %d", k, []int{10, 50, 400}[r.Intn(3)])
+			o.do(line)
+			o.Count("noiserace")
+			o.Nontrivial(line)
 		}
 		// games in sequence on one engine, and engines built from one option value: each game gets a table of its own
 		ng := 4
